@@ -207,6 +207,37 @@ kproof! {
         kani::cover!(true, "reached");
     }
 }
+/// far end of a full 32 KiB window: the window is a zero-initialised allocation (no 32 KiB initialiser for the
+/// solver to chew on) whose first four and last byte are symbolic, so a copy that starts one byte late or early is visible
+fn write_reference_far(dist: u32, len: u32) {
+    const W: usize = 32768;
+    let mut win: Vec<u8> = vec![0u8; W + 8];
+    win.truncate(W);
+    win[0] = kani::any(); win[1] = kani::any(); win[2] = kani::any(); win[3] = kani::any(); win[W - 1] = kani::any();
+    let mut src = Src::<1>::any();
+    let mut rd = DeflateReader::new(&mut src);
+    rd.plain_text = win;
+    rd.write_reference(dist, len);
+    let out = rd.move_plain_text();
+    assert!(out.len() == W + len as usize);
+    let mut k = 0usize;
+    while k < 4 {
+        if k < len as usize { assert!(out[W + k] == out[W + k - dist as usize], "window copy differs from the RFC 1951 definition at the far end of the window"); }
+        k += 1;
+    }
+    core::mem::forget(out);
+}
+kproof! {
+    /// K03f-far3: the far end of a full 32 KiB window with short copies: distances 32768 / 32767 / 32766 x length 3..4
+    /// (RFC 1951: distances up to 32768 are legal; a clamp or an off-by-one at the window edge shows here)
+    #[kani::stub(alloc::alloc::realloc, crate::verif_common::stub_realloc_unreachable)]
+    fn k03f_write_reference_far3() {
+        write_reference_far(32768, 3);
+        write_reference_far(32767, 3);
+        write_reference_far(32766, 4);
+        kani::cover!(true, "reached");
+    }
+}
 
 /// pack `nbits` low bits of `v` at bit position `*pos` (LSB first), advance
 fn put_bits(buf: &mut [u8; 8], pos: &mut usize, v: u32, nbits: u32) {
@@ -295,12 +326,16 @@ k03g! {
     fn k03g_fixed_reader_dist_28_29() { dist_codes(28, 30); }
 }
 k03g! { fn k03g_fixed_reader_len_0_7() { len_codes(0, 8); } }
-k03g! { fn k03g_fixed_reader_len_8_15() { len_codes(8, 16); } }
-k03g! { fn k03g_fixed_reader_len_16_23() { len_codes(16, 24); } }
+k03g! { fn k03g_fixed_reader_len_8_11() { len_codes(8, 12); } }
+k03g! { fn k03g_fixed_reader_len_12_15() { len_codes(12, 16); } }
+k03g! { fn k03g_fixed_reader_len_16_19() { len_codes(16, 20); } }
+k03g! { fn k03g_fixed_reader_len_20_23() { len_codes(20, 24); } }
 k03g! {
     /// K03g': distance codes 24..=29 (the 11..13 extra-bit codes) x every extra-bit value
     fn k03g_fixed_reader_dist_24_29() { dist_codes(24, 30); }
 }
 k03g! { fn k03g_fixed_reader_dist_0_7() { dist_codes(0, 8); } }
-k03g! { fn k03g_fixed_reader_dist_8_15() { dist_codes(8, 16); } }
-k03g! { fn k03g_fixed_reader_dist_16_23() { dist_codes(16, 24); } }
+k03g! { fn k03g_fixed_reader_dist_8_11() { dist_codes(8, 12); } }
+k03g! { fn k03g_fixed_reader_dist_12_15() { dist_codes(12, 16); } }
+k03g! { fn k03g_fixed_reader_dist_16_19() { dist_codes(16, 20); } }
+k03g! { fn k03g_fixed_reader_dist_20_23() { dist_codes(20, 24); } }
